@@ -27,14 +27,10 @@ def _msg(case):
     f = case.get("fields") or [""]
     return f[0] if f else ""
 
-# narrow matcher for the known defect: Compare sets Sametree only from the compared tree's branches, so a strict
-# contraction of the reference (every split of the compared tree is in the reference, the reference has more) is
-# reported identical.  The judge emits this exact message only after the model (bug-compatible) reproduced the record.
-MATCHERS = {
-    "C08-sametree-one-directional": lambda case: case.get("kind") == "ORACLE"
-        and _msg(case).startswith("sametree=T but splits only in reference=")
-        and "only in compared=0 (compared tree is a contraction of the reference)" in _msg(case),
-}
+# Fixed in /repo (eda8b7a): Compare set Sametree only from the compared tree's branches, so a strict contraction of
+# the reference was reported identical (witness: ref ((a,b),c,d), compared (a,b,c,d): Tree1=1 Tree2=0 Sametree=true).
+# The oracle still checks it on every case (message "sametree=T but splits only in reference=..."); no open matcher.
+MATCHERS = {}
 
 # ---------------------------------------------------------------- tree surgery on node dicts
 
